@@ -436,6 +436,12 @@ non-trivial = at least one danger flag, an added root or a non-valid certificate
             _ => "route:https-proxy-tunnel",
         });
         ctx.label_if(case.withdraw != 0, "waiver-withdrawn");
+        if let Some(p) = &seen.plaintext_retry {
+            return Outcome::fail(
+                format!("C14:{}:fell-back-to-plaintext", backend()),
+                format!("after the TLS handshake with the https proxy had failed, the client connected again and spoke plain HTTP ({p:?}); {describe}"),
+            );
+        }
         // the proxy hop of route 3 was not authenticated: nothing, not even the CONNECT request, may have been sent to it
         if case.route == 3 && !want_ok && seen.connect_head.is_some() {
             return Outcome::fail(format!("C14:{}:connect-sent-to-unauthenticated-proxy", backend()), describe);
